@@ -91,6 +91,7 @@ static inline void *v_malloc(size_t sz) { return malloc(sz); }   /* C malloc may
 #define V_BUILTIN_EXPECT(x, y) (x)
 
 static inline int v_isprint(int c) { return c >= 0x20 && c <= 0x7e; }
+static inline int v_isgraph(int c) { return c >= 0x21 && c <= 0x7e; }   /* C locale; glibc tolerates negative char values */
 static inline int v_islower(int c) { return c >= 'a' && c <= 'z'; }
 static inline int v_isupper(int c) { return c >= 'A' && c <= 'Z'; }
 static inline int v_isdigit(int c) { return c >= '0' && c <= '9'; }
